@@ -66,6 +66,8 @@ def scenario(ctx, rng, o):
             q = sc.drain(on_round=lambda s: tg.oracle_prefix(ctx, s, 'C08', 'final drain'))
             if not sc.stop:
                 tg.oracle_complete(ctx, sc, 'C08', q)        # healthy flows deliver everything
+                if q:
+                    tg.oracle_quiet(ctx, sc, 'C08')
                 # the faulty flow's sockets end up shut (closed rather than left hanging)
                 for i in sorted(sc.faulty):
                     f = sc.t.flows[i]
@@ -332,6 +334,8 @@ def reset_in_same_round(ctx, rng, which):
             q = sc.drain()
             tg.oracle_prefix(ctx, sc, 'C08', 'after the round')
             tg.oracle_complete(ctx, sc, 'C08', q)
+            if q:
+                tg.oracle_quiet(ctx, sc, 'C08')
             tg.oracle_alive(ctx, sc, 'C08', 'run')
         return sc.s.ins, sc.s.outs
     finally:
